@@ -244,6 +244,7 @@ func checkAccessors(c *core.Ctx, l *core.Ledger, mod *tmpl.Model, xs map[*tmpl.T
 		l.Unk("ACCESSOR", "anchor:ctor", "", "default constructor template not found")
 	}
 	l.Floor("ACCESSOR", 6)
+	checkConstRender(c, l)
 }
 
 var _ = core.ModPath
